@@ -159,7 +159,7 @@ def driver(name, flavour="asan", extra_src=(), extra_flags="", clock=False, link
         if os.path.exists(out):
             return out
         cflags = fl["cflags"].replace("-fsanitize=fuzzer-no-link,", "-fsanitize=")
-        cmd = [fl["cc"]] + cflags.split() + ["-D_GNU_SOURCE", "-DJWT_STATIC_DEFINE", "-Wall", "-Wno-unused-function",
+        cmd = [fl["cc"]] + cflags.split() + ["-D_GNU_SOURCE", "-DJWT_STATIC_DEFINE", '-DVH_DATA_DIR="%s"' % os.path.join(VERIF, "data"), "-Wall", "-Wno-unused-function",
               "-I" + os.path.join(REPO, "include"), "-I" + bdir, "-I" + ddir] + extra_flags.split() + srcs
         if link_lib:
             cmd += [os.path.join(bdir, "libjwt.a")]
